@@ -12,6 +12,7 @@ import (
 	"github.com/huderlem/poryscript/parser"
 
 	"verif.local/pvmon/internal/h"
+	"verif.local/pvmon/internal/spec"
 )
 
 // ---------------------------------------------------------------------------
@@ -345,7 +346,7 @@ func (e *env) stdVariants(r *rand.Rand) []variant {
 // ---------------------------------------------------------------------------
 // Class generators. Each is a pure function of (env, index, r).
 
-var classOrder = []string{"corpus", "edge", "trunc", "mut", "soup", "utf8", "bomb", "opts"}
+var classOrder = []string{"corpus", "edge", "trunc", "mut", "soup", "utf8", "bomb", "opts", "gen"}
 
 func (e *env) classCount(class string, quick bool) int {
 	pick := func(q, t int) int {
@@ -371,6 +372,8 @@ func (e *env) classCount(class string, quick bool) int {
 		return len(e.bombs)
 	case "opts":
 		return pick(20000, 600000)
+	case "gen":
+		return pick(30000, 800000)
 	}
 	return 0
 }
@@ -396,6 +399,8 @@ func (e *env) gen(class string, index int, r *rand.Rand) input {
 		return input{src: b.build(b.depth), variants: e.stdVariants(r), note: fmt.Sprintf("%s depth %d", b.shape, b.depth)}
 	case "opts":
 		return e.genOpts(r)
+	case "gen":
+		return e.genGenerated(r)
 	}
 	return input{}
 }
@@ -762,4 +767,44 @@ func buildBombs() []bombCase {
 		}
 	}
 	return out
+}
+
+// genGenerated: valid programs from the spec-tree generator shared with the
+// other monitors (every construct at every nesting position, labels in dead
+// code, shared/empty switch cases, poryswitch, inline map scripts, ...): the
+// emitter's chunk machinery sees shapes the hand-written corpus does not have,
+// under optimize on/off, line markers on/off and in lint mode.
+func (e *env) genGenerated(r *rand.Rand) input {
+	prof := spec.Profile{
+		MaxDepth: 3, MaxLen: 4,
+		WCmd: 30, WLabel: 8, WGoto: 5, WEnd: 4, WIf: 12, WWhile: 7, WInfWhile: 3, WDoWhile: 5, WBreak: 8, WContinue: 5, WSwitch: 12, WPory: 4, WCondGoto: 2,
+		MaxLeaves: 3, PAuto: 0.2, PTextArg: 0.25, PMovesArg: 0.12, PFormat: 0.1, PTyped: 0.2,
+		PEmptyBody: 0.1, AfterJump: 0.6, PElse: 0.5, MaxElif: 2, MaxCases: 6, PDefault: 0.6, PEmptyCase: 0.4,
+		PoryKeys: []string{"GAME", "LANG"}, PFallback: 0.9, PoryContinueAnywhere: true,
+	}
+	g := spec.NewGen(r, prof)
+	prog := g.FullProgram(1 + r.IntN(4))
+	pr := spec.Print(prog)
+	pr.Layout(spec.LayoutOpts{Scramble: r.IntN(4) == 0, CRLF: r.IntN(8) == 0, R: r})
+	cfg := parser.CommandConfig{AutoVarCommands: map[string]parser.AutoVarCommand{}}
+	for name, av := range prog.AutoVars {
+		if av.ArgPos >= 0 {
+			cfg.AutoVarCommands[name] = parser.AutoVarCommand{VarNameArgPosition: intp(av.ArgPos)}
+		} else {
+			cfg.AutoVarCommands[name] = parser.AutoVarCommand{VarName: av.VarName}
+		}
+	}
+	in := input{src: pr.Src, note: "generated valid program"}
+	for _, opt := range []bool{true, false} {
+		o := e.fullOpts(cfg)
+		o.Switches = prog.Switches
+		o.Optimize = opt
+		o.LM = r.IntN(2) == 0
+		if o.LM {
+			o.Path = pathsList[1+r.IntN(len(pathsList)-1)]
+		}
+		in.variants = append(in.variants, variant{fmt.Sprintf("generated(opt=%v lm=%v)", opt, o.LM), o})
+	}
+	in.variants = append(in.variants, variant{"lint", e.lintOpts(cfg)})
+	return in
 }
